@@ -8,7 +8,7 @@ from cgsim import gen as G, ref
 from cgsim.core import fp, Skip, state_digest
 
 ID = "C01"
-QUICK = dict(worlds=16, runs=600, seconds=25)
+QUICK = dict(worlds=16, runs=600, seconds=15)
 THOROUGH = dict(worlds=256, runs=4000, seconds=30)
 RULE = ("seeded lint-clean circuits x 6-14 partial-assignment queries; distinct = canonical net + queries "
         "fingerprint; non-trivial = at least one SAT and the circuit has >= 2 gates")
